@@ -71,6 +71,29 @@ pub fn exemplars() -> Result<Vec<Exemplar>, Violation> {
     let (req, _) = nc::cli_update(&mut c1, Duration::from_millis(250))?.ok_or_else(|| fail("no request"))?;
     // every byte of the request except the prefix high nibble is sealed or a bound public field... or the version string
     v.push(Exemplar { name: "connection request -> server", rx: Rx::Server(s_unknown, client_addr(1)), datagram: req.clone(), other_key: None, other_protocol: None, skip_bits: (4..8).map(|b| (0usize, 1u8 << b)).collect() });
+    // connection requests whose public fields are right but whose sealed token was made for something else
+    {
+        use crate::props::hsworld::request_datagram;
+        let mut variants: Vec<(&'static str, renetcode::ConnectToken)> = vec![];
+        let mut sp = TokenSpec::new(1, 11, public.clone());
+        sp.protocol = PROTOCOL + 1;
+        let mut t = make_token(&sp);
+        t.protocol_id = PROTOCOL;
+        variants.push(("connection request: token sealed for another protocol id, public field says ours", t));
+        let mut sp = TokenSpec::new(1, 11, public.clone());
+        sp.expire = 20;
+        let mut t = make_token(&sp);
+        t.expire_timestamp = 30;
+        variants.push(("connection request: token sealed with expiry 20, public field says 30", t));
+        let mut sp = TokenSpec::new(1, 11, public.clone());
+        sp.key = nc::FOREIGN_KEY;
+        variants.push(("connection request: token sealed under another private key", make_token(&sp)));
+        for (name, t) in variants {
+            let d = request_datagram(&t);
+            // presented as the "other key / other protocol" variant of the genuine request exemplar
+            v.push(Exemplar { name, rx: Rx::Server(server.clone(), client_addr(1)), datagram: req.clone(), other_key: Some(d), other_protocol: None, skip_bits: vec![(usize::MAX, 0)] });
+        }
+    }
     let SR::Send { bytes: challenge, .. } = nc::srv_process(&mut server, client_addr(1), &req)? else { return Err(fail("no challenge")) };
     v.push(Exemplar {
         name: "challenge -> requesting client",
@@ -172,6 +195,12 @@ fn reseal(d: &[u8], key: &[u8; 32], new_key: &[u8; 32], protocol: u64, new_proto
 
 pub fn tamper_cases(e: &Exemplar, tier: Tier) -> Vec<(String, Vec<u8>)> {
     let mut v = vec![];
+    if e.skip_bits.first() == Some(&(usize::MAX, 0)) {
+        if let Some(d) = &e.other_key {
+            v.push(("public fields as the server expects, sealed part made for something else".into(), d.clone()));
+        }
+        return v;
+    }
     let n = e.datagram.len();
     let stride = if n > 400 { tier.pick(1usize, 1usize) } else { 1 };
     for i in (0..n).step_by(stride) {
@@ -280,6 +309,19 @@ pub fn nonce_scenarios(tier: Tier) -> Vec<NetScenario> {
         c.server_payload_ticks = vec![4, 5];
         c.horizon = 5;
         c.tail = 8;
+        v.push(c);
+    }
+    // a client is denied (server full), the denial is lost or not, the slot frees up in the same tick, the retry is challenged
+    {
+        let mut c2 = ClientCfg::new(2);
+        c2.start_tick = 7;
+        let mut c = SimCfg::base("1-slot server: client 2 requests at tick 7 (denied), client 1 is disconnected at tick 7, retries are challenged", vec![ClientCfg::new(1), c2]);
+        c.max_clients = 1;
+        c.server_disconnect = Some((7, 1));
+        c.fault_from = 6;
+        c.horizon = 11;
+        c.tail = 8;
+        c.fates = vec![NFate::Ok, NFate::Drop, NFate::Dup, NFate::Delay1];
         v.push(c);
     }
     // three clients connecting on an already used server (handshake replies use the shared counter)
